@@ -9,6 +9,7 @@ import (
 	dto "github.com/prometheus/client_model/go"
 	tally "github.com/uber-go/tally/v4"
 	tprom "github.com/uber-go/tally/v4/prometheus"
+	rt "github.com/uber-go/tally/v4/verifrt"
 )
 
 type c17Op struct {
@@ -74,6 +75,17 @@ func c17Ops() []c17Op {
 			r.Histogram("hd", dspec).RecordDuration(d)
 			m.hsamples[lbl("hd", map[string]string{})] = append(m.hsamples[lbl("hd", map[string]string{})], float64(d)/float64(time.Second))
 			m.hbounds[lbl("hd", map[string]string{})] = dspec.AsValues()
+		}})
+	}
+	// names and tag keys that concatenate to the same string with '_' (legal: no name is reused)
+	for _, nt := range []struct {
+		name string
+		tags map[string]string
+	}{{"r_host", map[string]string{"zone": "1"}}, {"r", map[string]string{"host": "1", "zone": "1"}}, {"b_dir", map[string]string{}}, {"b", map[string]string{"dir": "1"}}} {
+		nt := nt
+		ops = append(ops, c17Op{fmt.Sprintf("%s%s inc 1", nt.name, tagString(nt.tags)), func(r tally.Scope, m *c17Model) {
+			r.Tagged(nt.tags).Counter(nt.name).Inc(1)
+			m.counters[lbl(nt.name, nt.tags)]++
 		}})
 	}
 	ops = append(ops, c17Op{"pass", nil})
@@ -365,4 +377,47 @@ func c17ConflictJob(tier string) *SeqJob {
 		})
 	}
 	return j
+}
+
+// c17Scenarios: concurrent first use of one metric family (same name and tag keys, different tag values).
+func c17Scenarios(tier string) []*Scenario {
+	sc := &Scenario{Property: "C17", Name: "P-concurrent-first-use-of-one-family"}
+	sc.Body = func(x *Run) {
+		reg := prom.NewRegistry()
+		ncb := 0
+		rep := tprom.NewReporter(tprom.Options{Registerer: reg, OnRegisterError: func(e error) { ncb++ }})
+		so := tprom.DefaultSanitizerOpts
+		root, _ := tally.VerifNewRootScope(tally.ScopeOptions{CachedReporter: rep, Separator: tprom.DefaultSeparator, SanitizeOptions: &so, OmitCardinalityMetrics: true}, 0, 1)
+		mk := func(v string, n int64) func() {
+			return func() {
+				s := root.Tagged(map[string]string{"k": v})
+				s.Counter("c").Inc(n)
+				s.Gauge("g").Update(float64(n))
+				s.Histogram("h", tally.ValueBuckets{1, 2}).RecordValue(1)
+			}
+		}
+		t1 := rt.GoNamed("user1", mk("1", 1))
+		t2 := rt.GoNamed("user2", mk("2", 2))
+		t1.Join()
+		t2.Join()
+		tally.VerifReportOnce(root)
+		if ncb != 0 {
+			x.failf("registration-error-on-legal-concurrent-first-use", "OnRegisterError was called %d time(s) although one name was used for one kind with one tag-key set", ncb)
+			return
+		}
+		m := newC17Model()
+		m.counters[lbl("c", map[string]string{"k": "1"})] = 1
+		m.counters[lbl("c", map[string]string{"k": "2"})] = 2
+		m.gauges[lbl("g", map[string]string{"k": "1"})] = 1
+		m.gauges[lbl("g", map[string]string{"k": "2"})] = 2
+		for _, v := range []string{"1", "2"} {
+			m.hsamples[lbl("h", map[string]string{"k": v})] = []float64{1}
+			m.hbounds[lbl("h", map[string]string{"k": v})] = []float64{1, 2}
+		}
+		if c, d := gatherCheck(reg, m, m.tcount); c != "" {
+			x.failf("concurrent-"+c, "%s", d)
+		}
+	}
+	sc.Check = func(x *Run, o *rt.Outcome) (string, string, string) { return "", "", "ok" }
+	return []*Scenario{sc}
 }
